@@ -52,7 +52,7 @@ func mknodAs(path, typ string, major, minor int64) error {
 }
 
 func checkC14(c *Ctx) {
-	c.Rule = "seeded caches whose device nodes leave hostPath/type/major/minor unspecified in all combinations and point at per-case host nodes created with mknod; sequences of 2-6 operations (Cache.InjectDevices, Device.ApplyEdits, Spec.ApplyEdits), each executed twice on equal OCI specs, with host nodes replaced (c<->b<->p, other major/minor) between operations; oracles: (i) JSON image of all cached Specs and devices identical before/after every operation, (ii) equal requests on equal OCI specs give equal results, (iii) the result equals applying pristine copies of the generator's edits now (so unspecified attributes are the current host's), (iv) every cached Spec can still be written back with WriteSpec and the file equals the one written before any injection; distinct_nontrivial = distinct (operation-kind sequence, positions of host changes) with >=2 operations touching a host-resolved node"
+	c.Rule = "seeded caches whose device nodes leave hostPath/type/major/minor unspecified in all combinations and point at per-case host nodes created with mknod; sequences of 2-6 operations (Cache.InjectDevices, Device.ApplyEdits, Spec.ApplyEdits), each executed twice on equal OCI specs, with host nodes replaced (c<->b<->p, other major/minor) between operations; oracles: (i) JSON image of all cached Specs and devices identical before/after every operation, (ii) equal requests on equal OCI specs give equal results, (iii) the result equals applying pristine copies of the generator's edits whose unspecified type/major/minor were filled in by the harness's own lstat of the current host nodes, (iv) every cached Spec can still be written back with WriteSpec and the file equals the one written before any injection; distinct_nontrivial = distinct (operation-kind sequence, positions of host changes) with >=2 operations touching a host-resolved node"
 	c.Assume("the cache image is taken through GetVendorSpecs/GetDevice only", "oracle (iii) uses ContainerEdits.Apply on pristine generator data as reference (its semantics are C03's job)")
 	c.RunCases("gen", c.pick(500, 20000), 0, func(cs *Case) {
 		r := cs.R
@@ -186,7 +186,21 @@ func checkC14(c *Ctx) {
 				return
 			}
 			c.Count("operations", 1)
-			refErr := (&cdi.ContainerEdits{ContainerEdits: &expected}).Apply(want)
+			// host-resolved attributes are computed by the harness's own lstat-based model
+			// (mFill), so that a library that remembers host information cannot be its own oracle
+			var fillErr error
+			for _, n := range expected.DeviceNodes {
+				typ, major, minor, err := mFill(n)
+				if err != nil {
+					fillErr = err
+					break
+				}
+				n.Type, n.Major, n.Minor = typ, major, minor
+			}
+			refErr := fillErr
+			if refErr == nil {
+				refErr = (&cdi.ContainerEdits{ContainerEdits: &expected}).Apply(want)
+			}
 			if refErr != nil {
 				// a node that states its type no longer matches the replaced host
 				// node: the operation must fail too, and still leave the cache alone
